@@ -16,9 +16,10 @@ import RotoV.Lemmas.LayoutTotal
 import RotoV.Lemmas.LayoutDrop
 import RotoV.Lemmas.LayoutRead
 import RotoV.Lemmas.LayoutWrite
+import RotoV.Lemmas.LayoutListEq
 
 namespace RotoV.C02
-open RotoV RotoV.Layout RotoV.LayoutStd RotoV.Gen.LayoutGen
+open RotoV RotoV.Layout RotoV.LayoutStd RotoV.Gen.LayoutGen RotoV.Gen.LayoutListEq
 
 /-- **T1 `layout_wf`** — for every type tree whose leaves report layouts that
     pass `Layout::new`'s asserts, the layout `layout_of` computes passes them
@@ -435,6 +436,104 @@ example :
     let m : Mem := fun x => if x = 1 then 1 else if x = 2 then 42 else 7
     decode (m.write 2 [9]) t 0 =
       some (.rec_ (.cons (.leaf .int [7]) (.cons (.enm 1 (.cons (.leaf .int [9]) .nil)) .nil))) := rfl
+
+/-! ### `==` on lists (the runtime side: src/value/list.rs, regenerated as `Gen.LayoutListEq`) -/
+
+/-- **`list_eq_structural`** — `==` on two Roto lists (`impl PartialEq for
+    ErasedList`, run statement by statement as regenerated from the source:
+    the `Arc::ptr_eq` shortcut, both locks, the length test, the loop over
+    `this.get(i).unwrap()` / `other.get(i).unwrap()`, the element type's
+    `eq_fn` = the generated equality function `eqTy` of T6) never panics (no
+    `unwrap()` of `None`, no mutex locked twice) and returns: `true` for one
+    and the same storage; otherwise equal lengths and, element by element, the
+    STRUCTURAL equality `veq` of the decoded element values. Nothing else
+    enters: not the padding inside or after an element, not the storage of the
+    variants that are not live, not the bit pattern of a float (`le`). -/
+theorem list_eq_structural (le : LeafKind → List Nat → List Nat → Bool) (hle0 : ∀ k, le k [] [] = true)
+    (t : Ty) (L : Layout) (hL : layoutOf t = some L) (m : Mem) (a b : RawBuf) (va vb : Nat → V)
+    (ha : ∀ i, i < a.len → decode m t (a.ptr + L.size * i) = some (va i))
+    (hb : ∀ i, i < b.len → decode m t (b.ptr + L.size * i) = some (vb i)) :
+    listEq (eqTy le m t) L.size a b =
+      .ok (if a.handle = b.handle then true
+           else decide (a.len = b.len) && (List.range a.len).all (fun i => veq le (va i) (vb i))) := by
+  rw [listEq_spec]
+  by_cases hh : a.handle = b.handle
+  · simp [hh]
+  · by_cases hl : a.len = b.len
+    · have hl' : (a.len = b.len) = True := eq_true hl
+      simp only [hh, if_false, hl', decide_true, Bool.true_and]
+      congr 1
+      exact all_range_congr (fun j hj =>
+        eq_structural le hle0 t L hL m _ _ _ _ (ha j hj) (hb j (hl ▸ hj)))
+    · simp [hh, hl]
+
+/-- **`list_contains_index_structural`** — `list.contains(x)` / `list.index(x)`
+    (`RawList::contains` / `index`, regenerated) never panic and answer by the
+    structural equality of the decoded element values with the decoded item:
+    whether / where the first structurally equal element is. -/
+theorem list_contains_index_structural (le : LeafKind → List Nat → List Nat → Bool) (hle0 : ∀ k, le k [] [] = true)
+    (t : Ty) (L : Layout) (hL : layoutOf t = some L) (m : Mem) (a : RawBuf) (item : Nat) (va : Nat → V) (vi : V)
+    (ha : ∀ i, i < a.len → decode m t (a.ptr + L.size * i) = some (va i))
+    (hi : decode m t item = some vi) :
+    listContains (eqTy le m t) L.size a item =
+        .ok (.bool ((List.range a.len).find? (fun j => veq le (va j) vi)).isSome) ∧
+      listIndex (eqTy le m t) L.size a item =
+        .ok (.idx ((List.range a.len).find? (fun j => veq le (va j) vi))) := by
+  have hc : (List.range a.len).find? (fun j => eqTy le m t (a.ptr + L.size * j) item) =
+      (List.range a.len).find? (fun j => veq le (va j) vi) :=
+    find_range_congr (fun j hj => eq_structural le hle0 t L hL m _ _ _ _ (ha j hj) hi)
+  rw [listContains_spec, listIndex_spec, hc]
+  exact ⟨rfl, rfl⟩
+
+/-- **`list_vtable_wiring`** — the element functions a list is given
+    (`Lowerer::call_runtime`, regenerated: the vtable written for a type
+    parameter of a runtime function, field by field of `struct VTable`): the
+    `eq_fn` of the elements is ALWAYS the address of the generated equality
+    function of the element type (`::generated::eq_<type_id>`, the `eqTy` of
+    `list_eq_structural`) — not chosen under any condition; the element size
+    and alignment are `layout_of`'s (the `L.size` of `list_eq_structural`);
+    `clone_fn` / `drop_fn` are the generated clone / drop functions exactly
+    when `needs_clone` / `needs_drop` say so (T5 / T7), null otherwise. -/
+theorem list_vtable_wiring :
+    vtableSlot vtableFields vtableWrites .eqFn = some (.generated .eq none) ∧
+      vtableSlot vtableFields vtableWrites .size = some .layoutSize ∧
+      vtableSlot vtableFields vtableWrites .align = some .layoutAlign ∧
+      vtableSlot vtableFields vtableWrites .cloneFn = some (.generated .clone (some .needsClone)) ∧
+      vtableSlot vtableFields vtableWrites .dropFn = some (.generated .drop (some .needsDrop)) := by
+  decide
+
+/-- **`bytewise_list_comparison_refuted`** — why the elements must go through
+    `eq_fn`: two one-element lists of `Option[u32]`-shaped values (`enum {
+    V0(u32), V1 }`, 8 bytes) both holding `V1` — the same value — whose element
+    buffers differ as bytes (the unused payload holds 7 in one and 9 in the
+    other); `==` as regenerated from the source says `true`, a comparison of
+    the buffers' bytes would say `false`. -/
+theorem bytewise_list_comparison_refuted :
+    let t := Ty.enum (.cons (.cons (.leaf .int 4 4) .nil) (.cons .nil .nil))
+    let m : Mem := fun x => if x = 0 ∨ x = 8 then 1 else if x = 4 then 7 else if x = 12 then 9 else 0
+    let le : LeafKind → List Nat → List Nat → Bool := fun _ x y => decide (x = y)
+    let a : RawBuf := { handle := 1, ptr := 0, len := 1 }
+    let b : RawBuf := { handle := 2, ptr := 8, len := 1 }
+    layoutOf t = some { size := 8, align := 4 } ∧
+      decode m t a.ptr = some (.enm 1 .nil) ∧ decode m t b.ptr = some (.enm 1 .nil) ∧
+      m.read a.ptr (8 * a.len) ≠ m.read b.ptr (8 * b.len) ∧
+      listEq (eqTy le m t) 8 a b = .ok true := by
+  refine ⟨rfl, rfl, rfl, by decide, by decide⟩
+
+/-- non-vacuity of `list_eq_structural` / `list_contains_index_structural`:
+    two distinct two-element lists of `{a: u8, b: u32}` with pairwise equal
+    elements and different padding; and a longer list is not equal to a shorter -/
+example :
+    let t := Ty.record (.cons (.leaf .int 1 1) (.cons (.leaf .int 4 4) .nil))
+    let m : Mem := fun x => if x % 8 = 0 then 5 else if x % 8 < 4 then x else 0
+    let le : LeafKind → List Nat → List Nat → Bool := fun _ x y => decide (x = y)
+    let a : RawBuf := { handle := 1, ptr := 0, len := 2 }
+    let b : RawBuf := { handle := 2, ptr := 16, len := 2 }
+    let c : RawBuf := { handle := 3, ptr := 16, len := 3 }
+    listEq (eqTy le m t) 8 a b = .ok true ∧ listEq (eqTy le m t) 8 a c = .ok false ∧
+      listEq (eqTy le m t) 8 c c = .ok true ∧
+      listContains (eqTy le m t) 8 a 16 = .ok (.bool true) ∧ listIndex (eqTy le m t) 8 a 24 = .ok (.idx (some 0)) := by
+  refine ⟨by decide, by decide, by decide, by decide, by decide⟩
 
 /-! ### further non-vacuity examples (hypotheses of the theorems above are satisfiable) -/
 
